@@ -93,3 +93,80 @@ def write_skeleton(c):
 
 def prove_write_skeleton(ctx):
     ctx.prove("dfxp.DFXPWriter.write[skeleton]", write_skeleton, functions=[DFXPWriter.write], crosscheck=False)
+
+
+# ------------------------------------------------------------------------------------ SAMIWriter.write
+
+def sami_write_skeleton(c):
+    """SAMIWriter.write as a skeleton (shared by C02, C03, C09, C14): a NEW document for every call; the input copied
+    before anything is changed; every language of the set in its order, the first one as `primary` throughout; one
+    `_recreate_p_tag` per caption of the language, in order, with the sync bookkeeping (`last_time`) starting afresh
+    for every language; layouts at the four levels replaced by their relativized / fitted form on the copy; the style
+    sheet appended once; the result is the serialised document without its first line.  Two writes in a row on one
+    writer object: the second is described by the same clauses (nothing of the first document is left)."""
+    import copy
+    from pycaption import SAMIWriter
+    shape = c.pick("caption_set", list(SHAPES))
+    counts = SHAPES[shape]
+    langs = list(counts)
+    second_shape = c.pick("written_before", [None, "two languages", "one language"])
+    log = []
+
+    class SamiSoup(StubSoup):
+        def __init__(self):
+            super().__init__(("sami", ("head", ("style",)), ("body",)))
+            log.append(("document", self))
+
+        def prettify(self, *a, **kw):
+            return "<?xml version?>\n<sami>\n" + f"document {id(self)}"
+
+    def build(counts_):
+        caps = {l: [Caption(10 ** 6 * (k + 1), 10 ** 6 * (k + 2), [CaptionNode.create_text(f"{l} {k}", layout_info=f"node layout {l} {k}")],
+                            layout_info=f"caption layout {l} {k}") for k in range(n)] for l, n in counts_.items()}
+        return caps, CaptionSet({l: CaptionList(v, layout_info=f"language layout {l}") for l, v in caps.items()}, layout_info="set layout")
+    w = c.new(SAMIWriter, open_span=True, last_time=4321, relativize=True, fit_to_screen=True, video_width=None, video_height=None)
+    q = "pycaption.sami:SAMIWriter."
+
+    def h_p(interp, fn, a, kw):
+        log.append(("p", a[1], a[2], a[3], a[4], a[5], interp.getattr(w, "last_time"), interp.getattr(w, "open_span")))
+        interp.setattr(w, "last_time", 777)
+        return a[2]
+    c.interp.overrides[BeautifulSoup] = lambda *a, **kw: SamiSoup()
+    c.interp.overrides[copy.deepcopy] = lambda x, *a: (log.append(("copy", x)), x)[1]
+    c.interp.contracts.update({q + "_recreate_p_tag": h_p,
+                               q + "_recreate_stylesheet": lambda interp, fn, a, kw: (log.append(("stylesheet", a[1])), "the style sheet")[1],
+                               "pycaption.base:BaseWriter._relativize_and_fit_to_screen": lambda interp, fn, a, kw: (log.append(("fit", a[1])), ("fitted", a[1]))[1]})
+    if second_shape:
+        _, earlier = build(SHAPES[second_shape])
+        c.call(SAMIWriter.write, w, earlier, compare=False)
+        del log[:]
+    caps, cs = build(counts)
+    r = c.call(SAMIWriter.write, w, cs, compare=False)
+    docs = [e_[1] for e_ in log if e_[0] == "document"]
+    c.ensure("a_new_document_for_every_write", len(docs) == 1)
+    if len(docs) != 1:
+        return
+    soup = docs[0]
+    c.ensure("input_copied_before_anything_is_changed", [e_ for e_ in log if e_[0] == "copy"] == [("copy", cs)]
+             and log.index(("copy", cs)) < min([i for i, e_ in enumerate(log) if e_[0] in ("p", "fit", "stylesheet")] + [len(log)]))
+    built = [e_ for e_ in log if e_[0] == "p"]
+    order = [(cap, l) for l in langs for cap in caps[l]]
+    c.ensure("one_paragraph_per_caption_every_language_in_order", [(e_[1], e_[3]) for e_ in built] == order)
+    c.ensure("into_this_document_with_the_first_language_as_primary_and_this_set",
+             all(e_[2] is soup and e_[4] == langs[0] and e_[5] is cs for e_ in built))
+    firsts = {l: caps[l][0] for l in langs if caps[l]}
+    c.ensure("sync_bookkeeping_starts_afresh_for_every_language",
+             all((e_[6] is None) == (firsts.get(e_[3]) is e_[1]) and (e_[6] is None or e_[6] == 777) for e_ in built))
+    c.ensure("span_state_reset", all(e_[7] is False for e_ in built) and c.interp.getattr(w, "open_span") is False)
+    c.ensure("layouts_of_all_four_levels_relativized_and_fitted_on_the_copy",
+             cs.layout_info == ("fitted", "set layout") and all(cs.get_layout_info(l) == ("fitted", f"language layout {l}") for l in langs if caps[l])
+             and all(cap.layout_info == ("fitted", f"caption layout {l} {k}") and cap.nodes[0].layout_info == ("fitted", f"node layout {l} {k}")
+                     for l in langs for k, cap in enumerate(caps[l])))
+    style = soup.find("style")
+    c.ensure("style_sheet_of_this_set_appended_once", style.children == ["the style sheet"] and [e_ for e_ in log if e_[0] == "stylesheet"] == [("stylesheet", cs)])
+    c.ensure("result_is_the_serialised_document_without_its_first_line", r == "<sami>\n" + f"document {id(soup)}")
+
+
+def prove_sami_write_skeleton(ctx):
+    from pycaption import SAMIWriter
+    ctx.prove("sami.SAMIWriter.write[skeleton]", sami_write_skeleton, functions=[SAMIWriter.write], crosscheck=False)
